@@ -52,7 +52,11 @@ class DescModel:
             if not any(self.K in l['ty'] or self.V in l['ty'] for l in b.locals):
                 scan.append(b)
                 continue
-            v = prog.view(b, keep=lambda g: not _ho(g), tag='desc-ho')
+            # ... and projection methods of the descriptor itself (`fn as_binary(&self) -> Option<Arc<..>>`)
+            def _proj(g):
+                return not g.is_closure and not g.j.get('reachable', g.is_pub) and g.arg_count == 1 and self.V in g.locals[1]['ty'] \
+                    and g.locals[0]['ty'].startswith('std::option::Option<')
+            v = prog.view(b, keep=lambda g: not (_ho(g) or _proj(g)), tag='desc-ho')
             if getattr(v, 'is_view', False):
                 swallowed |= set(v.j.get('inlined') or [])
                 self.views[b.id] = v
